@@ -130,6 +130,12 @@ def py_val(v, S, as_float):
 
 def run_case(case):
     """fills in the observations of one case; never raises"""
+    import contextlib, io
+    with contextlib.redirect_stdout(io.StringIO()):      # (the library prints from a few operators, e.g. ln online)
+        return _run_case(case)
+
+
+def _run_case(case):
     out = copy.deepcopy(case)
     specs = {}
     shared = {}      # caller-owned data objects that are passed to several calls / several objects (C11)
